@@ -231,6 +231,16 @@ def deadlinesTakeover (w : World) (h : Hyp) (t : Nat) : World :=
 
 def deadlines (w : World) (t : Nat) : World :=
   w.insts.foldl (fun acc x =>
+    -- C17: an attempt is one Create; a round is at most four attempts; Start makes one attempt of its own; a takeover
+    -- opportunity seen by the watcher makes one: the instance never issues more Creates than these account for
+    let acc := match x.createDebtAt with
+      | some d => if d < t then
+            if x.createCredit < 0 then
+              failW (acc.updInst x.cfg.id fun y => { y with createDebtAt := none, createCredit := 0 }) "C17" "more-creates-than-attempts"
+                s!"instance {x.cfg.id}: Create at {d} that no accepted Start, acquisition round (four attempts) or takeover opportunity (one attempt) accounts for"
+            else acc.updInst x.cfg.id fun y => { y with createDebtAt := none }
+          else acc
+      | none => acc
     -- C11: a leader that got a reconnect notification reads the record afresh (100 ms settle time, then at once)
     let acc := match x.verifyReadDue with
       | some d => if d < t then
@@ -353,7 +363,11 @@ def step (m : MState) (e : TEv) : MState :=
                        (match x.lastCreateAt with | some c => decide (c + 2000000000 < e.t) | none => true) && m.hyp.maxLat > 0))
               "C17" "round-without-jitter" s!"instance {i}: Create {repr (x.lastMissAt.map fun r => e.t - r)} ns after the periodic check that found the key vacant"
           else w
-        let x := if kind == OpKind.create then { x with lastCreateAt := some e.t, lastMissAt := none } else x
+        -- C17: an attempt is one Create; a round is at most four attempts; Start makes one attempt of its own; a takeover
+        -- opportunity seen by the watcher makes one: the instance never issues more Creates than these account for
+        -- (the harness logs a notification once the library has taken it from the channel - after the calls its handler made
+        -- at once; a Create that nothing accounts for yet is judged when the clock has moved on: `deadlines`)
+        let x := if kind == OpKind.create then { x with lastCreateAt := some e.t, lastMissAt := none, createCredit := x.createCredit - 1, createDebtAt := if x.createCredit ≤ 0 ∧ x.createDebtAt.isNone then some e.t else x.createDebtAt } else x
         let x := { x with recentCalls := recent, runToks := (match val with | .own id tok _ => if id == i && !x.runToks.contains tok then tok :: x.runToks else x.runToks | _ => x.runToks) }
         let w := w.setInst x
         let isRefreshAttempt := kind == .update && x.flag && (match val with | .own id tok _ => id == i && tok == x.flagTok | _ => false)
@@ -436,10 +450,15 @@ def step (m : MState) (e : TEv) : MState :=
       let w := { w0 with ops := w0.ops.filter (·.id ≠ op) }
       let w := match r, w.inst? p.inst with
         | .err k, some x =>
+          let x := if p.site == "checkKeyAndReelect" then { x with createCredit := x.createCredit + 4 } else x
+          let w := w.setInst x
           if (p.site == "checkKeyAndReelect" || p.site == "watchLoop") && !x.flag then
             w.setInst { x with trigs := (e.t :: x.trigs).take 2, lastMissAt := if k == ErrKind.notfound && p.site == "checkKeyAndReelect" then some e.t else x.lastMissAt }
           else w
-        | .ok _ _, some x =>
+        | .ok _ v, some x =>
+          let x := if p.site == "checkKeyAndReelect" && (match v with | none | some .empty => true | _ => false)
+                   then { x with createCredit := x.createCredit + 4 } else x
+          let w := w.setInst x
           -- (a record that the decoders cannot read, or an empty one, starts a round as well)
           if p.site == "checkKeyAndReelect" && !x.flag then w.setInst { x with trigs := (e.t :: x.trigs).take 2 } else w
         | _, _ => w
@@ -518,7 +537,7 @@ def step (m : MState) (e : TEv) : MState :=
   | .extDelete key _ =>
     let w := checkW w0 (¬ h.noOutside) "HYP" "no-outside-writer" "ext delete"
     { m with w := c02 (verifyTrack (recordLost (w.mutate 0 .extDelete key 0 none) h key (w.live key))) h }
-  | .wev _ i rev _ =>
+  | .wev _ i rev wv =>
     -- a notification older than the newest version of the key is stale news for the follower's LeaderID (C18 convergence)
     match w0.inst? i with
     | none => { m with w := w0 }
@@ -526,7 +545,11 @@ def step (m : MState) (e : TEv) : MState :=
       let newest := match w0.live x.cfg.key with
         | some rr => rr.rev
         | none => (w0.tombs.lookup x.cfg.key).getD 0
-      let x := { x with trigs := (e.t :: x.trigs).take 2 }
+      let x := { x with trigs := (e.t :: x.trigs).take 2,
+                        createCredit := x.createCredit + (match wv with
+                          | none | some .empty => 4
+                          | some (.own _ _ p) => if x.cfg.takeover ∧ x.cfg.prio > p then 1 else 0
+                          | some (.raw _) => if x.cfg.takeover then 1 else 0) }
       if rev ≠ 0 ∧ rev < newest then { m with w := w0.setInst { x with lastStaleWev := e.t } } else { m with w := w0.setInst x }
   | .wdrop _ _ _ => { m with w := w0 }
   | .cancelCtx i =>
@@ -664,7 +687,7 @@ def step (m : MState) (e : TEv) : MState :=
       let w := match a.kind, r with
         | .start, .ok =>
           ({ w with apis := w.apis.map fun (a : ApiCall) => if a.inst = i then { a with superseded := true } else a } : World).updInst i fun x =>
-            { x with runToks := [], orphanTok := none, stoppedSince := none, stopCalledSince := none, everStarted := true, lastTo := 1, startedAt := e.t, candidateSince := e.t }
+            { x with runToks := [], orphanTok := none, stoppedSince := none, stopCalledSince := none, everStarted := true, lastTo := 1, startedAt := e.t, candidateSince := e.t, lastMissAt := none, trigs := [], createCredit := x.createCredit + 1 }   -- (Start's own attempt is not a round: it does not wait)
         | .stop, .ok =>
           -- a Start called while this stop was in progress begins a new run: the stop's guarantees end there
           if a.superseded then (w.setInst { x with stopsInProgress := x.stopsInProgress - 1 }).hit "C09:stop-superseded-by-start" else
@@ -781,6 +804,13 @@ def step (m : MState) (e : TEv) : MState :=
   | .newErr _ => { m with w := w0 }
   | .end_ =>
     let w := w0.insts.foldl (fun acc x => earlyCancelled acc x (e.t + 1)) w0
+    -- C08: when the scenario is over (long after its last step) every term that ended has had its demotion callback -
+    -- also the ones whose callback a stop call that gave up waiting left to a goroutine
+    let w := w.insts.foldl (fun acc (x : InstW) =>
+      if x.cfg.callbacks ∧ x.everStarted ∧ x.stopsInProgress = 0 ∧ ¬ x.cut then
+        checkW acc (x.promotes = x.demotes + (if x.flag then 1 else 0) ∨ (x.flag ∧ x.promotes = x.demotes))
+          "C08" "callbacks-unbalanced-at-the-end" s!"instance {x.cfg.id}: promotions={x.promotes} demotions={x.demotes} IsLeader={x.flag} when the scenario ends"
+      else acc) w
     -- C09: stop calls still in progress beyond their time budget never returned
     let w := w0.apis.foldl (fun acc (a : ApiCall) =>
       match stopBudget a.kind with
